@@ -38,6 +38,7 @@ type Stim struct {
 	OpenFail bool       `json:"openFail"`
 	Args     kit.OpArgs `json:"args"`
 	Rereg    bool       `json:"rereg"` // for "reopen": re-register the validators afterwards
+	TidOf    string     `json:"tidOf"` // the message's transfer id is that of the named (locally opened) channel: a counterparty re-using our transfer id
 }
 
 type caseDef struct {
